@@ -102,11 +102,12 @@ class WebsocketSession(object):
                 raise errors.TransportFail(
                     'socket error; {}', error
                 )
-            if closing:
+            state = self.websocket.state
+            if closing and state.session is self:
                 # A close frame was sent. Flag the websocket as closing
                 # while we still have the lock, so that no other thread
                 # can send anything after it.
-                self.websocket.state.closing = True
+                state.closing = True
 
     def send(self, opcode, data):
         """Send a WS Frame."""
